@@ -7,6 +7,7 @@ import (
 	"fmt"
 	"net/http/httptest"
 	"os"
+	"regexp"
 	"runtime/debug"
 	"strconv"
 	"strings"
@@ -88,6 +89,25 @@ type Case struct {
 
 	Sessions [2]idpkit.Sess `json:"sessions"`
 	Markers  [2]string      `json:"markers"`
+	// CreatedAgoMs / ExpiresInMs place each session's CreateTime before and ExpireTime after the IdP clock
+	// (0 = one minute ago / in one hour, what older saved cases meant).
+	CreatedAgoMs [2]int64 `json:"created_ago_ms,omitempty"`
+	ExpiresInMs  [2]int64 `json:"expires_in_ms,omitempty"`
+}
+
+func (c Case) created(i int, now time.Time) time.Time {
+	if c.CreatedAgoMs[i] == 0 {
+		return now.Add(-time.Minute)
+	}
+	return now.Add(-time.Duration(c.CreatedAgoMs[i]) * time.Millisecond)
+}
+
+func (c Case) session(i int, now time.Time) *saml.Session {
+	s := c.Sessions[i].Session(c.created(i, now))
+	if c.ExpiresInMs[i] != 0 {
+		s.ExpireTime = now.Add(time.Duration(c.ExpiresInMs[i]) * time.Millisecond)
+	}
+	return s
 }
 
 const post = saml.HTTPPostBinding
@@ -116,7 +136,8 @@ func marked(t *rapid.T, marker, label string) string {
 }
 
 func genSession(t *rapid.T, marker string) idpkit.Sess {
-	s := idpkit.Sess{ID: "sid-" + marker, Index: "idx-" + marker, NameID: marked(t, marker, "nameid")}
+	// every field has a value of its own; the ID is the IdP's internal session handle (a cookie value in samlidp)
+	s := idpkit.Sess{ID: "sessionhandle0" + marker + rapid.StringMatching(`[a-z0-9]{4}`).Draw(t, "session-id"), Index: "idx-" + marker, NameID: marked(t, marker, "nameid")}
 	if rapid.IntRange(0, 4).Draw(t, "nameid-empty") == 0 {
 		// a session provider may fill only the user attributes
 		s.NameID = ""
@@ -336,6 +357,10 @@ func gen(t *rapid.T) Case {
 	}
 	c.Markers = [2]string{"qa" + rapid.StringMatching(`[a-z0-9]{9}`).Draw(t, "markerA"), "qb" + rapid.StringMatching(`[a-z0-9]{9}`).Draw(t, "markerB")}
 	c.Sessions = [2]idpkit.Sess{genSession(t, c.Markers[0]), genSession(t, c.Markers[1])}
+	for i := range c.CreatedAgoMs {
+		c.CreatedAgoMs[i] = rapid.SampledFrom([]int64{0, 1, 1000, 61001, 3599999, 86400000}).Draw(t, "created-ago")
+		c.ExpiresInMs[i] = rapid.SampledFrom([]int64{0, 1, 59999, 3600001, 86400000}).Draw(t, "expires-in")
+	}
 	if !c.Initiated && rapid.IntRange(0, 2).Draw(t, "optional-request-content") != 0 {
 		c.Opt = genOptional(t, c.Sessions[1])
 	}
@@ -675,13 +700,52 @@ func (c Case) judge(o outcome, sp SPMeta, md *saml.EntityDescriptor, reqID strin
 			return fmt.Sprintf("Audience %q, registered entity ID %q", a.Text, md.EntityID)
 		}
 	}
-	allowed := sess.Strings()
+	// every attribute value is a user attribute of THIS session (never its ID / handle), and an attribute
+	// whose name is documented for one session field carries exactly that field
+	allowed := sess.IdentityStrings()
 	for _, v := range as.All(xmlw.NSAssertion, "AttributeValue") {
 		if len(v.Children) > 0 {
 			return "AttributeValue with element content"
 		}
 		if !contains(allowed, v.Text) {
-			return fmt.Sprintf("attribute value %q is not a field of the authenticated session", v.Text)
+			return fmt.Sprintf("attribute value %q is not a user attribute of the authenticated session", v.Text)
+		}
+	}
+	for _, at := range as.All(xmlw.NSAssertion, "Attribute") {
+		name, _ := at.Attr("Name")
+		want, known := documentedValues(name, sess)
+		if !known {
+			continue
+		}
+		var got []string
+		for _, v := range at.Kids(xmlw.NSAssertion, "AttributeValue") {
+			got = append(got, v.Text)
+		}
+		if fmt.Sprintf("%q", got) != fmt.Sprintf("%q", want) {
+			return fmt.Sprintf("attribute %q carries %q, the session field documented for it holds %q", name, got, want)
+		}
+	}
+	// the statements about the authentication itself come from the session too
+	for _, st := range as.Kids(xmlw.NSAssertion, "AuthnStatement") {
+		if ix, ok := st.Attr("SessionIndex"); (ok || sess.Index != "") && ix != sess.Index {
+			return fmt.Sprintf("AuthnStatement SessionIndex %q, session Index %q", ix, sess.Index)
+		}
+		ai, _ := st.Attr("AuthnInstant")
+		if tm, err := parseInstant(ai); err != nil || !tm.Equal(c.created(me, now)) {
+			return fmt.Sprintf("AuthnInstant %q, the session was created at %s", ai, idpkit.FormatTime(c.created(me, now)))
+		}
+	}
+	if sess.NameIDFormat != "" && nid != nil {
+		if f, _ := nid.Attr("Format"); f != sess.NameIDFormat {
+			return fmt.Sprintf("NameID Format %q, session NameIDFormat %q", f, sess.NameIDFormat)
+		}
+	}
+	// the session ID is the IdP's internal handle of the session, not an attribute of the user
+	if len(sess.ID) >= 8 {
+		for _, hay := range [][]byte{o.body, raw, opened} {
+			if strings.Contains(string(hay), sess.ID) {
+				return fmt.Sprintf("the session's ID %q (internal session handle) appears in the emitted response", sess.ID)
+			}
 		}
 	}
 	// nothing the SP's metadata merely lists as values of interest is asserted about the user
@@ -712,6 +776,55 @@ func refOpen(response []byte, key *rsa.PrivateKey) ([]byte, error) {
 		}
 	}
 	return nil, fmt.Errorf("no EncryptedAssertion")
+}
+
+var nonAlnum = regexp.MustCompile("[^A-Za-z0-9]+")
+
+// documentedValues is the reference mapping attribute name -> session field: the standard LDAP / eduPerson
+// object identifiers, subject-id, the session's custom attributes, and the names an SP may request.
+func documentedValues(name string, s idpkit.Sess) ([]string, bool) {
+	one := func(v string) ([]string, bool) { return []string{v}, true }
+	switch name {
+	case "urn:oid:0.9.2342.19200300.100.1.1":
+		return one(s.UserName)
+	case "urn:oid:0.9.2342.19200300.100.1.3":
+		return one(s.Email)
+	case "urn:oid:1.3.6.1.4.1.5923.1.1.1.6":
+		if s.EPPN != "" {
+			return one(s.EPPN)
+		}
+		return one(s.Email)
+	case "urn:oid:2.5.4.4":
+		return one(s.Surname)
+	case "urn:oid:2.5.4.42":
+		return one(s.GivenName)
+	case "urn:oid:2.5.4.3":
+		return one(s.CommonName)
+	case "urn:oid:1.3.6.1.4.1.5923.1.1.1.9":
+		return one(s.Affiliation)
+	case "urn:oid:1.3.6.1.4.1.5923.1.1.1.1":
+		return append([]string(nil), s.Groups...), true
+	case "urn:oasis:names:tc:SAML:attribute:subject-id":
+		return one(s.SubjectID)
+	}
+	for _, a := range s.Custom {
+		if a.Name == name {
+			return append([]string(nil), a.Values...), true
+		}
+	}
+	switch nonAlnum.ReplaceAllString(name, "") {
+	case "email", "emailaddress":
+		return one(s.Email)
+	case "name", "fullname", "cn", "commonname":
+		return one(s.CommonName)
+	case "givenname", "firstname":
+		return one(s.GivenName)
+	case "surname", "lastname", "familyname":
+		return one(s.Surname)
+	case "uid", "user", "userid":
+		return one(s.UserName)
+	}
+	return nil, false
 }
 
 func trunc(b []byte) string {
@@ -831,7 +944,7 @@ func check(c Case) (res pbt.Result) {
 			res.Classes = append(res.Classes, "sequence:re-registered")
 			res.NonTrivial = true
 		}
-		sessions.S = c.Sessions[i].Session(now.Add(-time.Minute))
+		sessions.S = c.session(i, now)
 		reqID := fmt.Sprintf("%s-%d", c.ReqID, i)
 		idp.Logger.(*idpkit.Quiet).Lines = nil
 		o := c.serve(idp, sessions, reqID, now)
@@ -891,9 +1004,9 @@ func check(c Case) (res pbt.Result) {
 // enumConfigs: signature method x key kind x intermediates x key use x flow x clock position, plain sessions.
 func enumConfigs(_ string, emit func(Case)) {
 	tr := true
-	sessA := idpkit.Sess{ID: "sa", Index: "ia", NameID: "qaaaaaaaaaaa-alice", UserName: "qaaaaaaaaaaa-u", Email: "qaaaaaaaaaaa@example.com", Groups: []string{"qaaaaaaaaaaa-g1", "qaaaaaaaaaaa-g2"},
+	sessA := idpkit.Sess{ID: "sessionhandle0enumaaaa", SubjectID: "qaaaaaaaaaaa-subject", Index: "ia", NameID: "qaaaaaaaaaaa-alice", UserName: "qaaaaaaaaaaa-u", Email: "qaaaaaaaaaaa@example.com", Groups: []string{"qaaaaaaaaaaa-g1", "qaaaaaaaaaaa-g2"},
 		Custom: []idpkit.Attr{{Name: "urn:custom:0", FriendlyName: "c0", Values: []string{"qaaaaaaaaaaa <&> \"v\""}}}}
-	sessB := idpkit.Sess{ID: "sb", Index: "ib", NameID: "qbbbbbbbbbbb-bob", CommonName: "qbbbbbbbbbbb Bob", Surname: "qbbbbbbbbbbb-sn"}
+	sessB := idpkit.Sess{ID: "sessionhandle0enumbbbb", SubjectID: "qbbbbbbbbbbb-subject", Index: "ib", NameID: "qbbbbbbbbbbb-bob", CommonName: "qbbbbbbbbbbb Bob", Surname: "qbbbbbbbbbbb-sn"}
 	for _, m := range idpkit.RSAMethods {
 		for _, signer := range []bool{false, true} {
 			for _, inter := range []int{0, 1, 2} {
@@ -928,8 +1041,8 @@ func enumConfigs(_ string, emit func(Case)) {
 // endpoint, encryption on/off, and a re-registration between the two responses.
 func enumMetadataExtras(_ string, emit func(Case)) {
 	locA, locB, ret := "https://sp.example.com/saml/acs", "https://sp.example.com/saml/acs-eu", "https://status.sp.example.com/saml/return"
-	sessA := idpkit.Sess{ID: "sa", Index: "ia", NameID: "qaaaaaaaaaaa-alice", UserName: "qaaaaaaaaaaa-u", Email: "qaaaaaaaaaaa@example.com", CommonName: "qaaaaaaaaaaa Alice", Surname: "qaaaaaaaaaaa-sn", GivenName: "qaaaaaaaaaaa-gn"}
-	sessB := idpkit.Sess{ID: "sb", Index: "ib", NameID: "qbbbbbbbbbbb-bob", UserName: "qbbbbbbbbbbb-u", Email: "qbbbbbbbbbbb@example.com"}
+	sessA := idpkit.Sess{ID: "sessionhandle0enumaaaa", SubjectID: "qaaaaaaaaaaa-subject", Index: "ia", NameID: "qaaaaaaaaaaa-alice", UserName: "qaaaaaaaaaaa-u", Email: "qaaaaaaaaaaa@example.com", CommonName: "qaaaaaaaaaaa Alice", Surname: "qaaaaaaaaaaa-sn", GivenName: "qaaaaaaaaaaa-gn"}
+	sessB := idpkit.Sess{ID: "sessionhandle0enumbbbb", SubjectID: "qbbbbbbbbbbb-subject", Index: "ib", NameID: "qbbbbbbbbbbb-bob", UserName: "qbbbbbbbbbbb-u", Email: "qbbbbbbbbbbb@example.com"}
 	basic := "urn:oasis:names:tc:SAML:2.0:attrname-format:basic"
 	svc := func(values bool) []AttrSvc {
 		var v1, v2 []string
@@ -1001,8 +1114,8 @@ func enumRequestContent(_ string, emit func(Case)) {
 		{Extensions: full.Extensions}, {PolicyFormat: full.PolicyFormat, PolicySPNameQual: full.PolicySPNameQual, PolicyAllowCreate: idpkit.P("false")},
 		{ConditionsAudience: full.ConditionsAudience}, {AuthnContextClass: full.AuthnContextClass}, {RequesterID: full.RequesterID},
 		{ProviderName: full.ProviderName, AttrSvcIndex: full.AttrSvcIndex, ForceAuthn: full.ForceAuthn, IsPassive: full.IsPassive, Consent: full.Consent}}
-	withID := idpkit.Sess{ID: "sa", Index: "ia", NameID: "qaaaaaaaaaaa-alice", UserName: "qaaaaaaaaaaa-u", Email: "qaaaaaaaaaaa@example.com"}
-	noID := idpkit.Sess{ID: "sb", Index: "ib", NameID: "", UserName: "qbbbbbbbbbbb-u", Groups: []string{"qbbbbbbbbbbb-g"}}
+	withID := idpkit.Sess{ID: "sessionhandle0enumaaaa", SubjectID: "qaaaaaaaaaaa-subject", Index: "ia", NameID: "qaaaaaaaaaaa-alice", UserName: "qaaaaaaaaaaa-u", Email: "qaaaaaaaaaaa@example.com"}
+	noID := idpkit.Sess{ID: "sessionhandle0enumbbbb", SubjectID: "qbbbbbbbbbbb-subject", Index: "ib", NameID: "", UserName: "qbbbbbbbbbbb-u", Groups: []string{"qbbbbbbbbbbb-g"}}
 	for _, o := range opts {
 		for _, order := range [][2]idpkit.Sess{{withID, noID}, {noID, withID}} {
 			for _, use := range []string{"", "encryption"} {
